@@ -94,7 +94,15 @@ where
     let mut graphu = convert_graph(graph, weighted, &node_map);
     let partition = map_node_names_to_hashsets(&graphu);
     let mut modularity = partitions::modularity(&graphu, &partition, weighted, resolution).unwrap();
-    let m = graphu.size(weighted);
+    // (summed in a fixed order, like every weight sum below: with a seed the result must not
+    // depend on the iteration order of the hash-based stores)
+    let m = match weighted {
+        true => partitions::get_edges_in_fixed_order(&graphu)
+            .iter()
+            .map(|e| e.weight)
+            .sum(),
+        false => graphu.size(false),
+    };
     let (mut partition, mut inner_partition, _improvement) =
         compute_one_level(&graphu, m, &partition, resolution.unwrap_or(1.0), seed);
     let mut improvement = true;
@@ -324,8 +332,7 @@ fn get_degree_information(
     if graph.specs.directed {
         // the `get_weighted_*` methods can be used here, whether or not the original graph
         // was weighted because `set_all_edge_weights` has been called in `louvain_partitions`
-        in_degrees = graph.get_weighted_in_degree_for_all_nodes().unwrap();
-        out_degrees = graph.get_weighted_out_degree_for_all_nodes().unwrap();
+        (out_degrees, in_degrees) = partitions::get_weighted_degrees_in_fixed_order(graph);
         stot_in = (0..partition.len())
             .into_iter()
             .map(|i| *in_degrees.get(&i).unwrap())
@@ -335,7 +342,7 @@ fn get_degree_information(
             .map(|i| *out_degrees.get(&i).unwrap())
             .collect();
     } else {
-        degrees = graph.get_weighted_degree_for_all_nodes();
+        degrees = partitions::get_weighted_degrees_in_fixed_order(graph).0;
         stot = (0..partition.len())
             .into_iter()
             .map(|i| *degrees.get(&i).unwrap())
@@ -431,7 +438,7 @@ where
         }
         new_graph.add_node(Node::from_name_and_attributes(i, nodes));
     });
-    graph.get_all_edges().iter().for_each(|e| {
+    partitions::get_edges_in_fixed_order(graph).iter().for_each(|e| {
         let com1 = node2com.get(&e.u).unwrap();
         let com2 = node2com.get(&e.v).unwrap();
         let new_graph_edge_weight = new_graph
@@ -463,7 +470,7 @@ where
     let hm: HashMap<usize, f64> = HashMap::new();
     let empty_hs = HashSet::new();
     let hs = nbrs.get(u).unwrap_or(&empty_hs);
-    hs.iter().fold(hm, |mut acc: HashMap<usize, f64>, v: &T| {
+    hs.iter().sorted().fold(hm, |mut acc: HashMap<usize, f64>, v: &T| {
         if u == v {
             return acc;
         }
@@ -487,7 +494,7 @@ fn add_predecessor_weights<T, A>(
     A: Clone + Send + Sync,
 {
     if let Some(hs) = preds.get(u) {
-        for v in hs {
+        for v in hs.iter().sorted() {
             if u == v {
                 continue;
             }
